@@ -59,6 +59,8 @@ func main() {
 		os.Exit(cmdCheck(os.Args[2:]))
 	case "dump":
 		os.Exit(cmdDump(os.Args[2:]))
+	case "variants":
+		os.Exit(cmdVariants(os.Args[2:]))
 	case "rules":
 		b, _ := json.Marshal(allRules())
 		os.Stdout.Write(b)
